@@ -433,7 +433,7 @@ FN[r'rcu_list::rcu_guard::unlock'] = dict(
   vf_exc = 0;
   %(GUARD)s__unlock(&g);
   __CPROVER_assert(!vf_exc, "[C05] unlock does not throw");
-  __CPROVER_assert(own->owner.v == 0 && g_owner_clears == 1, "[C05] the guard's owner field is cleared exactly once");
+  __CPROVER_assert(own->owner.v == 0 && g_owner_clears == 1, "[C05,C13] the guard's owner field is cleared exactly once (a record that stays owned is never reclaimed)");
   __CPROVER_assert(g_after_owner_clear == 0, "[C05] clearing the owner is the last thing unlock does (a later guard may free this record right after)");
   __CPROVER_assert(!any_owned || (g_rec_frees == 0 && g_node_frees == 0 && g_node_destroys == 0),
                    "[C05] nothing is reclaimed while an older guard is still registered (its owner may still reach the erased nodes)");
@@ -444,6 +444,12 @@ FN[r'rcu_list::rcu_guard::unlock'] = dict(
                    "[C13] while an older guard is still registered the log stays intact: the released record still links to every older record (a skipped record could never be reclaimed: leak)");
 ''' % D)
 
+FN[r'rcu_list::ctor(__.*)?'] = dict(
+    props='C12 C13', setup='vf_LST = 0; g_new = 0; g_victim = 0; g_env_off = 1; g_owner_clears = 0;',
+    requires=['vf_LST == 0 && g_new == 0 && g_victim == 0 && g_env_off && g_owner_clears == 0 && !vf_exc'],
+    ensures=[('C12 C13', 'self->m_head.v == 0 && self->m_tail.v == 0 && self->m_zombie_head.v == 0 && !self->m_write_mutex.excl_me && self->m_write_mutex.shared_me == 0 && !vf_exc',
+              'a new list is empty (head, tail and the reclamation log are null) and unlocked')],
+    assigns='*self, ' + RG)
 FN[r'rcu_list::dtor'] = dict(
     props='C13',
     bounded='list of at most %d nodes and log of at most %d records (all released); loops unwound %d times with unwinding assertions' % (NB, NB, NB + 2),
